@@ -394,11 +394,28 @@ def reencodeViaWire (c : Content) : Option JVal :=
   | .ok (some (.mk w _)) => some (wcsToJson w none)
   | _ => none
 
-/-! ## Required members (monitor and theorem share this predicate) -/
+/-! ## `ResourceContents` (plain tagged struct; only its required-member question is modelled) -/
+
+/-- `json.Marshal(ResourceContents)` with the regenerated tags: `text` has `omitempty`, `blob` has
+`omitzero` (a nil slice is dropped, an empty non-nil one is written as ""). -/
+def encodeResource (uri mime text : Bytes) (blob : Option Bytes) (m : Meta) : JVal :=
+  .obj (members [
+    member ResourceContents_URI_name ResourceContents_URI_omit (optStr uri) (.str []),
+    member ResourceContents_MIMEType_name ResourceContents_MIMEType_omit (optStr mime) (.str []),
+    member ResourceContents_Text_name ResourceContents_Text_omit (optStr text) (.str []),
+    member ResourceContents_Blob_name ResourceContents_Blob_omit (blob.map .str) .null,
+    member ResourceContents_Meta_name ResourceContents_Meta_omit (optObj m) .null])
 
 def isStr : Option JVal → Bool
   | some (.str _) => true
   | _ => false
+
+/-- A resource contents object carries `text` or `blob` (TextResourceContents / BlobResourceContents). -/
+def resourceOK : JVal → Bool
+  | .obj kvs => isStr (lookup ResourceContents_Text_name kvs) || isStr (lookup ResourceContents_Blob_name kvs)
+  | _ => true
+
+/-! ## Required members (monitor and theorem share this predicate) -/
 
 mutual
 /-- Required members of a content object are present and non-null: `text` for text, `data` for
